@@ -34,7 +34,7 @@ RULE = ('(i) argument lists over {letters, space, tab, LF, \', ", \\, e-acute, U
 ASSUMPTIONS = ['the three quoting functions encode only the documented rules of split_command_line',
                'the probe reads /proc/self/environ, TIOCGWINSZ, termios and the SIGHUP disposition it was exec\'d with']
 REQUIRED = ['which_sequences', 'roundtrips', 'roundtrips_leading_ws', 'which_layouts', 'which_spawn_crosschecks', 'probe_spawns',
-            'probe_popen', 'enumerated_roundtrips']
+            'probe_popen', 'enumerated_roundtrips', 'probe_after_failed_launch']
 
 PROBE = os.path.join(PEERS, 'probe.py')
 ALPHA = ['a', 'B', ' ', '\t', "'", '"', '\\', '\xe9', '\xa0', '　', '\x1c', '\n', 'z', '-']
@@ -454,7 +454,10 @@ def gen_probe(rng, i):
          'env': rng.choice([None, {'A': '1'}, {}, {'X Y': 'a b', 'E': '', 'U': '\xe9=€', 'PATH': '/usr/bin:/bin'}]),
          'dims': rng.choice([None, [7, 13], [1, 1], [300, 500]]),
          'echo': rng.choice([True, True, False]),
-         'ignore_sighup': rng.choice([False, False, True]), 'i': i}
+         'ignore_sighup': rng.choice([False, False, True]), 'i': i,
+         # an earlier launch in the same process that failed inside the fork/exec step (a script whose interpreter
+         # does not exist), with the other SIGHUP request: this launch still gets what IT asked for
+         'failed_first': rng.random() < 0.25}
     if rng.random() < 0.12:
         # a text-mode object with a narrow encoding and a lenient error policy for the child's OUTPUT: the command
         # line is still handed over exactly, or the launch is refused
@@ -487,6 +490,17 @@ def probe_case(c, tmp, acc):
                 [a.encode(c['enc']) for a in args]
             except UnicodeEncodeError:
                 unrep = True
+        if c.get('failed_first') and not popen:
+            bad = os.path.join(root, 'orphan-script')
+            with open(bad, 'w') as f:
+                f.write('#!/nonexistent/interpreter\n')
+            os.chmod(bad, 0o755)
+            acc.count('probe_after_failed_launch')
+            try:
+                x = pexpect.spawn(bad, [], ignore_sighup=not c['ignore_sighup'], timeout=5)
+                x.close(force=True)
+            except Exception:
+                pass
         try:
             if popen:
                 acc.count('probe_popen')
